@@ -242,3 +242,24 @@ HARNESS(h_ahbm_write_burst)
     OUT(ghost_ext_n); OUT(ok);
     CANARY();
 }
+
+/* ---- C18, AHBM part: any access through a channel whose registers hold any value the MMIO fields can hold (TYPE and BURST are 2-bit fields,
+ * so the undocumented codes 3 are reachable) is memory-safe and keeps the burst queue within its 8 entries */
+HARNESS(h_ahbm_access_safe)
+{
+    NONDET(Ahbm, ahbm); NONDET(u16, chn); NONDET(u32, addr); NONDET(u32, val); NONDET(u16, op);
+    ahbm.read_external8.set = ahbm.write_external8.set = ahbm.read_external16.set = ahbm.write_external16.set = ahbm.read_external32.set = ahbm.write_external32.set = 1;
+    NATIVE_ONLY(chn %= 3; ahbm.channels.e[chn].burst_size &= 3; ahbm.channels.e[chn].unit_size &= 3; ahbm.channels.e[chn].direction &= 1; ahbm.channels.e[chn].burst_queue.len %= 9; ahbm.channels.e[chn].burst_queue.head %= VERIF_QCAP;)
+    ASSUME(chn < 3 && ahbm.channels.e[chn].burst_size < 4 && ahbm.channels.e[chn].unit_size < 4 && ahbm.channels.e[chn].direction < 2);
+    ASSUME(ahbm.channels.e[chn].burst_queue.len <= 8 && ahbm.channels.e[chn].burst_queue.head < VERIF_QCAP);
+    NONDET_ARR(u32, ext_in, EXT_LOG); ghost_ext_in = ext_in; ghost_ext_n = 0; verif_outcome = 0;
+    u32 r = 0;
+    switch (op & 3) {
+    case 0: r = Ahbm_Read16(&ahbm, chn, addr); break;
+    case 1: r = Ahbm_Read32(&ahbm, chn, addr); break;
+    case 2: Ahbm_Write16(&ahbm, chn, addr, (u16)val); break;
+    default: Ahbm_Write32(&ahbm, chn, addr, val); break;
+    }
+    CHECK(ahbm.channels.e[chn].burst_queue.len <= 8 && ahbm.channels.e[chn].burst_queue.head < VERIF_QCAP, "the burst queue stays within its 8 entries");
+    OUT(r); OUT(ghost_ext_n); CANARY();
+}
